@@ -164,7 +164,7 @@ type fenv struct {
 	rtype  string            // receiver type name
 	vars   map[string]sclass // local variables (and "s." for the slice field of a local struct)
 	params map[string]bool   // slice-typed parameters
-	cbArgs map[string]bool   // variables passed as argument to a callback parameter
+	alias  map[string]bool   // local variables that are the receiver itself (`x := av`)
 	funcPs map[string]bool   // func-typed parameters
 }
 
@@ -199,7 +199,7 @@ func (e *fenv) class(x ast.Expr) sclass {
 				}
 			}
 			if storageField[x.Sel.Name] {
-				if id.Name == e.recv && e.recv != "" {
+				if (id.Name == e.recv && e.recv != "") || e.alias[id.Name] {
 					return cRecv
 				}
 				if c, ok := e.vars[id.Name+".$storage"]; ok {
@@ -436,7 +436,7 @@ func (e *fenv) paramPos(name string) int {
 
 func (sa *sliceAnalysis) newEnv(fd *ast.FuncDecl) *fenv {
 	e := &fenv{sa: sa, fd: fd, recv: recvVarName(fd), rtype: recvTypeName(fd), vars: map[string]sclass{},
-		params: map[string]bool{}, funcPs: map[string]bool{}}
+		params: map[string]bool{}, funcPs: map[string]bool{}, alias: map[string]bool{}}
 	for _, f := range fd.Type.Params.List {
 		for _, n := range f.Names {
 			if isSliceType(f.Type) {
@@ -509,6 +509,10 @@ func (e *fenv) scanAssignments() {
 					}
 					id, ok := l.(*ast.Ident)
 					if !ok {
+						continue
+					}
+					if rid, ok := s.Rhs[i].(*ast.Ident); ok && e.recv != "" && (rid.Name == e.recv || e.alias[rid.Name]) {
+						e.alias[id.Name] = true
 						continue
 					}
 					if c, ok := e.sliceFieldOfLit(s.Rhs[i]); ok {
